@@ -27,6 +27,8 @@ Min2(a, b) == IF a < b THEN a ELSE b
 Last(q)    == q[Len(q)]
 Front(q)   == SubSeq(q, 1, Len(q) - 1)
 R(a, ap, l, k, s) == [arch |-> a, applied |-> ap, args |-> [l |-> l, k |-> k, s |-> s]]
+\* name of a nested method as the enclosing module reports it; "None" (nothing was applied) stays "None"
+Nest(p, ap) == IF ap = "None" THEN "None" ELSE p \o ap
 \* a function from a set of <<name, value>> pairs with distinct names
 Fn(pairs)  == [n \in {p[1] : p \in pairs} |-> (CHOOSE p \in pairs : p[1] = n)[2]]
 Str(i)     == ToString(i)
@@ -76,7 +78,8 @@ MlpShapes(c, a, p, ni, no) ==
 (***************************************************************************************************)
 (* CNN   agilerl/modules/cnn.py:457-578, utils/evolvable_networks.py:345-383                       *)
 (* c = [kind, name, inc, inh, depth (0 = Conv2d, else depth of the Conv3d sample input), no,       *)
-(*      minl, maxl, minc, maxc, deltas, ln]                                                        *)
+(*      minl, maxl, minc, maxc, deltas, ln, nolayer (layer mutations disabled: encoder of a        *)
+(*      network)]                                                                                  *)
 (***************************************************************************************************)
 CnnMethods     == {"add_layer", "remove_layer", "change_kernel", "add_channel", "remove_channel"}
 CnnNodeMethods == {"change_kernel", "add_channel", "remove_channel"}
@@ -105,12 +108,14 @@ CnnRemoveLayer(c, a) ==                                                    \* cn
   THEN { R([ch |-> Front(a.ch), ks |-> Front(a.ks), st |-> Front(a.st)], "remove_layer", 0, 0, 0) }
   ELSE CnnAddChannel(c, a)
 \* change_kernel: with one layer falls back to add_layer; else layer 2..min(4,L) (never the first),
-\* kernel 1..maxk(layer)  (cnn.py:501-515, 143-165)
+\* kernel 1..maxk(layer)  (cnn.py:501-515, 143-165).  Inside a network the encoder's layer mutations are
+\* disabled: the fall-back add_layer then returns at once (modules/base.py:184-187), nothing changes and
+\* last_mutation_attr is None -- "stopped by a bound, no change".
 CnnChangeKernel(c, a) ==
   LET L == Len(a.ch) IN
   IF L > 1
   THEN UNION { { R([a EXCEPT !.ks[l] = k], "change_kernel", l, k, 0) : k \in 1..CnnMaxK(c, a, l) } : l \in 2..Min2(4, L) }
-  ELSE CnnAddLayer(c, a)
+  ELSE IF c.nolayer THEN { R(a, "None", 0, 0, 0) } ELSE CnnAddLayer(c, a)
 CnnSucc(c, a, m) ==
   CASE m = "add_layer"      -> CnnAddLayer(c, a)
     [] m = "remove_layer"   -> CnnRemoveLayer(c, a)
@@ -250,7 +255,7 @@ MultiNodeMethods(c) == LatentMethods \cup MultiSubMethods(c, TRUE)
 MultiSucc(c, a, m) ==
   IF m = "add_latent_node" THEN LatentAdd(c, a)
   ELSE IF m = "remove_latent_node" THEN LatentRemove(c, a)
-  ELSE UNION { UNION { { R([a EXCEPT !.subs[i] = r.arch], SubPfx(c, i) \o r.applied, r.args.l, r.args.k, r.args.s)
+  ELSE UNION { UNION { { R([a EXCEPT !.subs[i] = r.arch], Nest(SubPfx(c, i), r.applied), r.args.l, r.args.k, r.args.s)
                            : r \in BlockSucc(c.subs[i].cfg, a.subs[i], bm) }
                        : bm \in {x \in BlockMethods(c.subs[i].cfg) : SubPfx(c, i) \o x = m} }
                : i \in 1..Len(c.subs) }
@@ -287,9 +292,9 @@ NetAllMethods(c) == LatentMethods \cup {"encoder." \o m : m \in EncMethods(c.enc
 NetSucc(c, a, m) ==
   IF m = "add_latent_node" THEN LatentAdd(c, a)
   ELSE IF m = "remove_latent_node" THEN LatentRemove(c, a)
-  ELSE UNION { { R([a EXCEPT !.enc = r.arch], "encoder." \o r.applied, r.args.l, r.args.k, r.args.s) : r \in EncSucc(c.enc, a.enc, em) }
+  ELSE UNION { { R([a EXCEPT !.enc = r.arch], Nest("encoder.", r.applied), r.args.l, r.args.k, r.args.s) : r \in EncSucc(c.enc, a.enc, em) }
                  : em \in {x \in EncMethods(c.enc) : "encoder." \o x = m} }
-       \cup UNION { { R([a EXCEPT !.head = r.arch], "head_net." \o r.applied, r.args.l, r.args.k, r.args.s) : r \in MlpSucc(c.head, a.head, hm) }
+       \cup UNION { { R([a EXCEPT !.head = r.arch], Nest("head_net.", r.applied), r.args.l, r.args.k, r.args.s) : r \in MlpSucc(c.head, a.head, hm) }
                  : hm \in {x \in MlpMethods : "head_net." \o x = m} }
 NetOK(c, a) == a.lat >= 1 /\ EncOK(c.enc, a.enc) /\ MlpOK(c.head, a.head)
 NetInBounds(c, a) == a.lat >= c.minlat /\ a.lat <= c.maxlat /\ EncInBounds(c.enc, a.enc) /\ MlpInBounds(c.head, a.head)
@@ -378,7 +383,9 @@ BlockAdvertised(c, a, m, b, applied, args) ==
   /\ m = Grow(c)   => applied = IF L < MaxLayers(c) /\ CnnRoom(c, a) THEN Grow(c) ELSE Widen(c)
   /\ m = Shrink(c) => applied = IF L > MinLayers(c) THEN Shrink(c) ELSE Widen(c)
   /\ m \in {Widen(c), Narrow(c)} => applied = m
-  /\ m = "change_kernel" => applied = IF L > 1 THEN "change_kernel" ELSE IF L < MaxLayers(c) /\ CnnRoom(c, a) THEN "add_layer" ELSE "add_channel"
+  /\ m = "change_kernel" => applied = IF L > 1 THEN "change_kernel" ELSE IF c.nolayer THEN "None"
+                                       ELSE IF L < MaxLayers(c) /\ CnnRoom(c, a) THEN "add_layer" ELSE "add_channel"
+  /\ applied = "None" => b = a
   \* what the method that ran does
   /\ applied = Grow(c) => /\ Layers(c, b) = L + 1 /\ SubSeq(w2, 1, Len(w)) = w
                           /\ c.kind \in {"mlp", "cnn"} => Last(w2) = Last(w)
@@ -398,23 +405,23 @@ BlockAdvertised(c, a, m, b, applied, args) ==
   /\ applied = "change_kernel" => /\ b.ch = a.ch /\ b.st = a.st /\ args.l \in 2..Min2(4, L)
                                   /\ args.k >= 1 /\ args.k <= CnnMaxK(c, a, args.l)
                                   /\ b.ks = [a.ks EXCEPT ![args.l] = args.k]
-  /\ applied \in BlockMethods(c)
+  /\ applied \in BlockMethods(c) \cup {"None"}
 LatentAdvertised(c, a, m, b, applied, args) ==
   /\ applied = m
   /\ m = "add_latent_node"    => b.lat = IF a.lat + args.k < c.maxlat THEN a.lat + args.k ELSE a.lat
   /\ m = "remove_latent_node" => b.lat = IF a.lat - args.k > c.minlat THEN a.lat - args.k ELSE a.lat
 MultiAdvertised(c, a, m, b, applied, args) ==
   IF m \in LatentMethods THEN LatentAdvertised(c, a, m, b, applied, args) /\ b.subs = a.subs
-  ELSE \E i \in 1..Len(c.subs) : \E bm, ba \in BlockMethods(c.subs[i].cfg) :
-         /\ m = SubPfx(c, i) \o bm /\ applied = SubPfx(c, i) \o ba /\ b.lat = a.lat
+  ELSE \E i \in 1..Len(c.subs) : \E bm \in BlockMethods(c.subs[i].cfg), ba \in BlockMethods(c.subs[i].cfg) \cup {"None"} :
+         /\ m = SubPfx(c, i) \o bm /\ applied = Nest(SubPfx(c, i), ba) /\ b.lat = a.lat
          /\ \A j \in 1..Len(c.subs) : j # i => b.subs[j] = a.subs[j]
          /\ BlockAdvertised(c.subs[i].cfg, a.subs[i], bm, b.subs[i], ba, args)
 EncAdvertised(c, a, m, b, applied, args) ==
   IF c.kind = "multi" THEN MultiAdvertised(c, a, m, b, applied, args) ELSE BlockAdvertised(c, a, m, b, applied, args)
 NetAdvertised(c, a, m, b, applied, args) ==
   IF m \in LatentMethods THEN LatentAdvertised(c, a, m, b, applied, args) /\ b.enc = a.enc /\ b.head = a.head
-  ELSE \/ \E em, ea \in EncMethods(c.enc) :
-            /\ m = "encoder." \o em /\ applied = "encoder." \o ea /\ b.lat = a.lat /\ b.head = a.head
+  ELSE \/ \E em \in EncMethods(c.enc), ea \in EncMethods(c.enc) \cup {"None"} :
+            /\ m = "encoder." \o em /\ applied = Nest("encoder.", ea) /\ b.lat = a.lat /\ b.head = a.head
             /\ EncAdvertised(c.enc, a.enc, em, b.enc, ea, args)
        \/ \E hm, ha \in MlpMethods :
             /\ m = "head_net." \o hm /\ applied = "head_net." \o ha /\ b.lat = a.lat /\ b.enc = a.enc
